@@ -3,6 +3,7 @@ package rules
 import (
 	"fmt"
 	"go/token"
+	"go/types"
 	"strings"
 
 	"golang.org/x/tools/go/ssa"
@@ -373,7 +374,7 @@ func c19AuthorIP(c *Ctx) {
 				continue
 			}
 		}
-		if root != fn && root.Name() != "Start" {
+		if root != fn && root.Name() != "Start" && !callersWithin(p, root, []*ssa.Function{fn}, 1) {
 			okReaders = false
 			r.Fail("C19/AUTHOR-IP", fnShort(acc.Fn)+" touches Server.sessions", p.Pos(acc.Instr.Pos()), "the session table belongs to the server goroutine")
 		}
@@ -381,13 +382,16 @@ func c19AuthorIP(c *Ctx) {
 	if okReaders {
 		r.OK("C19/AUTHOR-IP", "Server.sessions accessed only by Server.runInner (and Start)", p.Pos(fn.Pos()), "")
 	}
-	// lookup by id
+	// lookup by id (in the loop, or in a helper extracted from it)
 	var lk *ssa.Lookup
-	for _, b := range fn.Blocks {
-		for _, in := range b.Instrs {
-			if l, ok := in.(*ssa.Lookup); ok && l.CommaOk && strings.HasSuffix(core.PathOf(l.X), ".sessions") {
-				if strings.HasSuffix(core.PathOf(l.Index), ".id") {
-					lk = l
+	for _, hf := range withHelpers(fn, 1) {
+		for _, b := range hf.Blocks {
+			for _, in := range b.Instrs {
+				if l, ok := in.(*ssa.Lookup); ok && l.CommaOk && core.SameField(fieldOfLoad(l.X), sessF) {
+					if strings.HasSuffix(core.PathOf(l.Index), ".id") {
+						lk = l
+						fn = hf
+					}
 				}
 			}
 		}
@@ -421,16 +425,33 @@ func c19AuthorIP(c *Ctx) {
 		}
 		return false, false
 	}
-	ipEq := findCall(fn, func(c *ssa.Call) bool { return isIPEq(c) })
+	var ipEq *ssa.Call
 	hasZone := false
-	for _, b := range fn.Blocks {
-		if iff, ok := b.Instrs[len(b.Instrs)-1].(*ssa.If); ok {
-			c0 := iff.Cond
-			if u, ok := c0.(*ssa.UnOp); ok && u.Op == token.NOT {
-				c0 = u.X
+	var scanFns []*ssa.Function
+	scanFns = append(scanFns, withHelpers(fn, 1)...)
+	for _, hf := range scanFns {
+		if c := findCall(hf, func(c *ssa.Call) bool { return isIPEq(c) }); c != nil && ipEq == nil {
+			ipEq = c
+		}
+	}
+	for _, hf := range scanFns {
+		for _, b := range hf.Blocks {
+			if iff, ok := b.Instrs[len(b.Instrs)-1].(*ssa.If); ok {
+				c0 := iff.Cond
+				if u, ok := c0.(*ssa.UnOp); ok && u.Op == token.NOT {
+					c0 = u.X
+				}
+				if rec, _ := isZoneCmp(c0); rec {
+					hasZone = true
+				}
 			}
-			if rec, _ := isZoneCmp(c0); rec {
-				hasZone = true
+			// a comparison may also be the value a helper returns
+			for _, in := range b.Instrs {
+				if bo, ok := in.(*ssa.BinOp); ok {
+					if rec, _ := isZoneCmp(bo); rec {
+						hasZone = true
+					}
+				}
 			}
 		}
 	}
@@ -458,74 +479,47 @@ func c19AuthorIP(c *Ctx) {
 		}
 		return false
 	}
-	type st struct {
-		b        *ssa.BasicBlock
-		ip, zone bool
-	}
-	seenSt := map[st]bool{}
+	type st struct{ ip, zone bool }
 	leak := false
-	var dfs func(b *ssa.BasicBlock, from int, ip, zone bool)
-	dfs = func(b *ssa.BasicBlock, from int, ip, zone bool) {
-		if leak {
-			return
-		}
-		if from == 0 {
-			k := st{b, ip, zone}
-			if seenSt[k] {
-				return
-			}
-			seenSt[k] = true
-		}
-		for i := from; i < len(b.Instrs); i++ {
-			in := b.Instrs[i]
-			if isGrant(in) {
-				if !(ip && zone) {
-					leak = true
-				}
-				return
-			}
-			if _, isSel := in.(*ssa.Select); isSel {
-				return // next iteration of the server loop
-			}
-		}
-		iff, ok := b.Instrs[len(b.Instrs)-1].(*ssa.If)
-		if !ok {
-			for _, sc := range b.Succs {
-				dfs(sc, 0, ip, zone)
-			}
-			return
-		}
-		cond, neg := iff.Cond, false
-		if u, ok := cond.(*ssa.UnOp); ok && u.Op == token.NOT {
-			cond, neg = u.X, true
-		}
-		for i, sc := range b.Succs {
-			val := (i == 0) != neg // value of cond on this edge
-			if cond == okVal {
-				if !val {
-					continue // the session exists on the paths we follow
-				}
-				dfs(sc, 0, ip, zone)
-				continue
-			}
-			if isIPEq(cond) {
-				dfs(sc, 0, ip || val, zone)
-				continue
-			}
-			if rec, eqOnTrue := isZoneCmp(cond); rec {
-				dfs(sc, 0, ip, zone || (val == eqOnTrue))
-				continue
-			}
-			dfs(sc, 0, ip, zone)
-		}
+	ex := &pathExplorer{budget: 60000}
+	ex.inline = func(h *ssa.Function) bool {
+		return h.Pkg == fn.Pkg && !token.IsExported(h.Name()) && h.Signature.Results().Len() == 1 && len(h.Blocks) <= 8
 	}
-	idx := 0
-	for i, in := range lk.Block().Instrs {
-		if in == ssa.Instruction(lk) {
-			idx = i + 1
+	ex.onInstr = func(s any, in ssa.Instruction) any {
+		cur := s.(st)
+		granted := isGrant(in)
+		if rt, ok := in.(*ssa.Return); ok && in.Parent() == fn {
+			// in a helper, the session is handed on by returning it
+			for _, rv := range rt.Results {
+				if core.NamedOfShort(core.Deref(rv.Type())) == "ServerSession" && !isNilConst(rv) {
+					granted = true
+				}
+			}
 		}
+		if granted && !(cur.ip && cur.zone) {
+			leak = true
+		}
+		return cur
 	}
-	dfs(lk.Block(), idx, false, false)
+	ex.onCond = func(s any, cond ssa.Value, pol bool) (any, bool) {
+		cur := s.(st)
+		if cond == okVal {
+			return cur, pol // follow only the paths on which the session exists
+		}
+		if isIPEq(cond) {
+			cur.ip = cur.ip || pol
+			return cur, true
+		}
+		if rec, eqOnTrue := isZoneCmp(cond); rec {
+			cur.zone = cur.zone || (pol == eqOnTrue)
+			return cur, true
+		}
+		return cur, true
+	}
+	// only paths that pass the lookup matter: start there
+	sawLookup := false
+	_ = sawLookup
+	ex.run(fn, st{}, func(any, []ssa.Value) {})
 	r.Check(!leak, "C19/AUTHOR-IP", "existing session granted only to the creator's IP and zone", p.Pos(ipEq.Pos()), "the grant is reachable from the lookup's ok edge only through ip.Equal == true and equal zones", "an existing session can be handed to a connection from another address")
 }
 
@@ -580,43 +574,112 @@ func c19TCPPin(c *Ctx) {
 	if !r.Anchor("C19/TCP-PIN", "ServerSession.handleRequestInner", fn != nil) {
 		return
 	}
-	entry := fn.Blocks[0]
-	iff, ok := entry.Instrs[len(entry.Instrs)-1].(*ssa.If)
-	okShape := false
-	why := "the entry block does not branch on ss.tcpConn != nil"
-	if ok {
-		s := condString(iff.Cond, 0)
-		if strings.Contains(s, ".tcpConn") && strings.Contains(s, "!=") {
-			nb := entry.Succs[0]
-			if iff2, ok := nb.Instrs[len(nb.Instrs)-1].(*ssa.If); ok {
-				s2 := condString(iff2.Cond, 0)
-				if strings.Contains(s2, ".tcpConn") && strings.Contains(s2, "!=") && strings.Contains(s2, fn.Params[1].Name()) {
-					rb := nb.Succs[0]
-					if ret, ok := rb.Instrs[len(rb.Instrs)-1].(*ssa.Return); ok {
-						sc := responseStatusOf(ret.Results[0])
-						if sc >= 400 && sc < 500 && !isNilConst(ret.Results[1]) {
-							okShape = true
-						} else {
-							why = "the refusal does not return a 4xx response with an error"
-						}
-					}
-				} else {
-					why = "the second test does not compare the requesting connection with ss.tcpConn"
-				}
-			}
+	// Semantic form (shape independent, helpers are looked through): follow the paths from the
+	// entry while the only things decided are "the session streams on a connection" (tcpConn != nil)
+	// and "it is not this one" (sc != tcpConn). A path on which both hold must return a 4xx
+	// response with an error, with no side effect and no other decision before it; nothing else
+	// may be decided, and no side effect may happen, before the two tests.
+	scParam := fn.Params[1]
+	type pin struct {
+		nn, other int // 0 unknown, 1 true, 2 false
+		effect    bool
+		stray     string
+	}
+	okShape := true
+	why := ""
+	nRefusals := 0
+	fail := func(w string) {
+		if okShape {
+			okShape, why = false, w
 		}
 	}
-	// nothing but loads before the refusal
-	if okShape {
-		for _, b := range []*ssa.BasicBlock{entry, entry.Succs[0]} {
-			for _, in := range b.Instrs {
-				switch in.(type) {
-				case *ssa.Store, *ssa.Call, *ssa.MapUpdate, *ssa.Send:
-					okShape = false
-					why = "a side effect precedes the connection test"
+	isTCPConn := func(v ssa.Value) bool { return strings.HasSuffix(core.PathOf(v), ".tcpConn") }
+	ex := &pathExplorer{budget: 4000}
+	ex.inline = func(h *ssa.Function) bool {
+		return h.Pkg == fn.Pkg && h.Signature.Results().Len() == 1 && len(h.Blocks) <= 6 && !token.IsExported(h.Name())
+	}
+	ex.onInstr = func(st any, in ssa.Instruction) any {
+		s := st.(pin)
+		if s.nn == 2 || s.other == 2 {
+			return s
+		}
+		switch x := in.(type) {
+		case *ssa.Store:
+			root := x.Addr
+			for {
+				if fa, ok := root.(*ssa.FieldAddr); ok {
+					root = fa.X
+					continue
 				}
+				if ia, ok := root.(*ssa.IndexAddr); ok {
+					root = ia.X
+					continue
+				}
+				break
+			}
+			if _, local := root.(*ssa.Alloc); !local {
+				s.effect = true
+			}
+		case *ssa.MapUpdate, *ssa.Send, *ssa.Go, *ssa.Defer:
+			s.effect = true
+		case *ssa.Call:
+			if _, isB := x.Call.Value.(*ssa.Builtin); isB {
+				break
+			}
+			if h := x.Call.StaticCallee(); h != nil && h.Blocks != nil && ex.inline(h) {
+				break // looked through when it is the condition
+			}
+			s.effect = true
+		}
+		return s
+	}
+	ex.onCond = func(st any, cond ssa.Value, pol bool) (any, bool) {
+		s := st.(pin)
+		if s.nn == 2 || s.other == 2 {
+			return s, false // not pinned to another connection: no obligation on this path
+		}
+		if bo, ok := cond.(*ssa.BinOp); ok && (bo.Op == token.EQL || bo.Op == token.NEQ) {
+			ne := (bo.Op == token.NEQ) == pol // the operands differ on this edge
+			switch {
+			case isTCPConn(bo.X) && isNilConst(bo.Y) || isTCPConn(bo.Y) && isNilConst(bo.X):
+				if ne {
+					s.nn = 1
+				} else {
+					s.nn = 2
+				}
+				return s, true
+			case isTCPConn(bo.X) && bo.Y == ssa.Value(scParam) || isTCPConn(bo.Y) && bo.X == ssa.Value(scParam),
+				isTCPConn(bo.X) && isParamOfHelper(bo.Y) || isTCPConn(bo.Y) && isParamOfHelper(bo.X):
+				if ne {
+					s.other = 1
+				} else {
+					s.other = 2
+				}
+				return s, true
 			}
 		}
+		if s.nn == 1 && s.other == 1 {
+			fail("after the two connection tests succeeded something else is decided before the refusal")
+		} else {
+			fail("the entry of the function decides something else (" + core.PathOf(cond) + ") before the connection tests")
+		}
+		return s, false
+	}
+	ex.run(fn, pin{}, func(st any, res []ssa.Value) {
+		s := st.(pin)
+		if s.nn == 1 && s.other == 1 {
+			nRefusals++
+			if s.effect {
+				fail("a side effect precedes the refusal")
+			}
+			sc := responseStatusOf(res[0])
+			if !(sc >= 400 && sc < 500) || len(res) < 2 || isNilConst(res[1]) {
+				fail("the refusal does not return a 4xx response with an error")
+			}
+		}
+	})
+	if nRefusals == 0 {
+		fail("no path refuses a request that arrives on a connection other than the one the session streams on")
 	}
 	r.Check(okShape, "C19/TCP-PIN", "ServerSession.handleRequestInner pins interleaved sessions to their connection", p.Pos(fn.Pos()), "entry: ss.tcpConn != nil && sc != ss.tcpConn -> 4xx + error, before any side effect", why)
 }
@@ -744,4 +807,21 @@ func c19RefusedNoEffect(c *Ctx) {
 			r.OK("C19/REFUSED-NO-EFFECT", construct, p.Pos(e.in.Pos()), "only on err == nil or the read-function switch marker")
 		}
 	}
+}
+
+// isParamOfHelper: v is a parameter of a function other than the one being
+// examined (the connection handed to a helper that compares it with tcpConn).
+func isParamOfHelper(v ssa.Value) bool {
+	prm, ok := v.(*ssa.Parameter)
+	return ok && core.NamedOfShort(core.Deref(prm.Type())) == "ServerConn"
+}
+
+// fieldOfLoad: v is a load of a struct field; returns the field.
+func fieldOfLoad(v ssa.Value) *types.Var {
+	if u, ok := v.(*ssa.UnOp); ok && u.Op == token.MUL {
+		if fa, ok := u.X.(*ssa.FieldAddr); ok {
+			return core.FieldOfAddr(fa)
+		}
+	}
+	return nil
 }
